@@ -180,6 +180,15 @@ def _matrix_at(M, assign):
     return out
 
 
+def _plain_number(e):
+    """a numeric literal a + b*I (no unevaluated function, power or constant)"""
+    try:
+        return bool(e.is_Number) or (not e.has(sympy.Function, sympy.Pow, sympy.NumberSymbol, sympy.Symbol)
+                                     and all(a.is_Number or a is sympy.I for a in e.atoms()))
+    except Exception:
+        return False
+
+
 def _param_scale(params):
     """largest magnitude of a number occurring in the parameters (a relative 1e-12 deviation of an
     angle p moves matrix entries by up to |p| * 1e-12)"""
@@ -452,10 +461,11 @@ def consequences(mon, orig, img, rng, found):
         if bad:
             break
         cheap = all(m[0] in ("C", "D") or (m[0] == "P" and isinstance(m[1], int) and abs(m[1]) <= 3) for m in m1)
-        if cheap and any(m[0] == "P" and m[1] < 0 for m in m1) and any(
-                isinstance(p, complex) or (isinstance(p, sympy.Basic) and p.has(sympy.I)) for p in b1.params):
-            cheap = False  # sympy's inverse of a matrix of complex floating-point expressions can hang
-            mon.note("whole-gate matrix not evaluated (negative power over complex parameters)")
+        if cheap and any(m[0] == "P" and m[1] < 0 for m in m1) and not all(_plain_number(e) for e in M1):
+            # sympy's inverse of a matrix with unevaluated entries (cos(2), exp(1.64*I), exp of a complex
+            # argument: custom definitions at exact or complex arguments) may not return (environment)
+            cheap = False
+            mon.note("whole-gate matrix not evaluated (negative power of a matrix with unevaluated entries)")
         if m1 and cheap and o1.gate.num_qubits <= 3 and not (any(m[0] == "P" for m in m1) and o1.gate.free_symbols):
             try:
                 W1 = o1.gate.matrix
@@ -1229,11 +1239,25 @@ def _events(mon):
     return mon.n_violations + sum(mon.known.values())
 
 
+def _note_params(mon, circuits):
+    """tallies of the complex-valued parameter families that occur (evidence)"""
+    for c in circuits:
+        for op in c.operations:
+            for p in _chain(op.gate)[1].params:
+                if isinstance(p, complex):
+                    long_ = any(float(f"{x:.6g}") != x for x in (p.real, p.imag))
+                    mon.note("parameter: Python complex, " + ("a part needs more than 6 digits" if long_ else "short"))
+                elif isinstance(p, sympy.Basic) and p.has(sympy.I):
+                    mon.note("parameter: sympy " + ("expression with a complex coefficient" if p.atoms(sympy.Symbol)
+                                                    else "complex number"))
+
+
 def _run(ctx, obj, how, expect_refusal=False):
     """drive one round trip; hooks judge.  Exceptions of the library are violations recorded by the
     hooks; one that no hook saw is recorded here."""
     _REG.clear()
     _EXPR.clear()
+    _note_params(ctx.mon, obj if isinstance(obj, list) else [obj])
     try:
         img = transport(ctx.rng, obj, how, ctx.index)
     except Exception as e:
@@ -1257,6 +1281,7 @@ def _run_history(ctx, objs, order, how):
 
     _REG.clear()
     _EXPR.clear()
+    _note_params(ctx.mon, [c for o in objs for c in (o if isinstance(o, list) else [o])])
     shipped = []
     try:
         for i, obj in enumerate(objs):
